@@ -6,10 +6,13 @@ package main
 // the offending schedule. Afterwards contents and order are checked against the sequential spec.
 
 import (
+	"bytes"
 	"fmt"
+	"github.com/storacha/go-ucanto/core/car"
 	"github.com/storacha/go-ucanto/core/ipld/codec/cbor"
 	"github.com/storacha/go-ucanto/core/ipld/hash/sha256"
 	mdm "github.com/storacha/go-ucanto/core/message/datamodel"
+	"io"
 	"math/rand"
 	"runtime"
 	"strings"
@@ -26,6 +29,9 @@ func init() {
 	gens["C17"] = genC17
 	execs["bsconc"] = execBsConc
 	isolatedOps["bsconc"] = true
+	execs["bsfresh"] = execBsConc
+	isolatedOps["bsfresh"] = true
+	freshOps["bsfresh"] = true
 }
 
 func genC17(cfg Config, emit Emit) error {
@@ -39,6 +45,21 @@ func genC17(cfg Config, emit Emit) error {
 		procs := []int{1, 2, 4, 16}[(i/16)%4]
 		via := []string{"store", "attach", "store", "attachseq"}[i%4]
 		emit("bsconc", []string{itoa(cfg.Rng.Intn(1 << 30)), itoa(g), itoa(ops), itoa(procs), via}, fmt.Sprintf("g%d/ops%d/procs%d/%s", g, ops, procs, via), true)
+	}
+	// a delegation shared between goroutines that attach to it, iterate it and archive it, as the first
+	// thing their process does with the library
+	nf := 8
+	if cfg.Thorough() {
+		nf = 40
+	}
+	for i := 0; i < nf; i++ {
+		g := []int{2, 4, 8}[i%3]
+		procs := []int{2, 4, 16}[(i/3)%3]
+		via := []string{"archive", "attach"}[i%4/3]
+		emit("bsfresh", []string{itoa(cfg.Rng.Intn(1 << 30)), itoa(g), "20", itoa(procs), via}, fmt.Sprintf("fresh-process/g%d/procs%d/%s", g, procs, via), true)
+	}
+	for i := 0; i < n/8; i++ {
+		emit("bsconc", []string{itoa(cfg.Rng.Intn(1 << 30)), itoa(2 + i%5), itoa([]int{5, 20, 60}[i%3]), itoa([]int{1, 2, 4, 16}[i%4]), "archive"}, "archive", true)
 	}
 	return nil
 }
@@ -132,6 +153,12 @@ func execBsConc(a []string) (res Result) {
 			blocks[i] = mk()
 			continue
 		}
+		if via == "archive" {
+			// archives are read back by a decoder that checks every block against its link
+			blocks[i] = rawCborBlock([]byte{0x19, byte(i >> 8), byte(i)})
+			idOf[blocks[i].Link().String()] = i
+			continue
+		}
 		blocks[i] = block.NewBlock(dummyLink(i), []byte{byte(i), byte(i >> 8)})
 		idOf[blocks[i].Link().String()] = i
 	}
@@ -141,7 +168,7 @@ func execBsConc(a []string) (res Result) {
 	var get func(l ipld.Link) (ipld.Block, bool, error)
 	var iterate func() []int
 	nOwn := 0
-	if via == "attach" || via == "attachseq" {
+	if via == "attach" || via == "attachseq" || via == "archive" {
 		pools()
 		d, err := delegation.Delegate(edPool[0], edPool[1], []ucan.Capability[NbMap]{ucan.NewCapability("x/y", edPool[0].DID().String(), NbMap{F: map[string]any{}})})
 		if err != nil {
@@ -156,6 +183,26 @@ func execBsConc(a []string) (res Result) {
 		shared := d.Blocks()
 		iterate = func() []int {
 			var out []int
+			if via == "archive" {
+				// iteration through the archive writer: the attached blocks in the order the archive lists them
+				ab, err := io.ReadAll(d.Archive())
+				if err != nil {
+					return []int{-1}
+				}
+				_, blks, err := car.Decode(bytes.NewReader(ab))
+				if err != nil {
+					return []int{-1}
+				}
+				for b, err := range blks {
+					if err != nil {
+						return append(out, -1)
+					}
+					if id, ok := idOf[b.Link().String()]; ok {
+						out = append(out, id)
+					}
+				}
+				return out
+			}
 			k := 0
 			seq := d.Blocks()
 			if via == "attachseq" {
